@@ -14,7 +14,7 @@ import numpy as np
 from refmodels.minimisers import Composite, NoCertificate
 from simkit import codec
 from simkit.ledger import Ledger
-from simkit.seams import Seams, SimClock, SimStream
+from simkit.seams import InjectedCallbackFault, Seams, SimClock, SimStream
 from simkit.world import Discard, Result, Violation, World, mk_rng
 
 from . import common
@@ -117,6 +117,44 @@ def reference(Ad, y, gk, lam_g, lo, hi, Gd, gkindG, lam2, z):
             raise NoCertificate("complementarity %g" % comp)
         return x.astype(np.complex128), None
     raise NoCertificate("unsupported reference combination")
+
+
+def caused_by_injected_fault(e):
+    """True if an InjectedCallbackFault is anywhere in the cause chain (Linop.apply wraps
+    every exception in a RuntimeError per nesting level)."""
+    seen = 0
+    while e is not None and seen < 20:
+        if isinstance(e, InjectedCallbackFault):
+            return True
+        e = e.__cause__ or e.__context__
+        seen += 1
+    return False
+
+
+def make_flaky(sp, inner, state):
+    """Linop wrapper whose k-th application (counted over the operator, its adjoint and
+    every operator derived from them) raises once."""
+    L = sp.linop
+
+    class Flaky(L.Linop):
+        def __init__(self, op):
+            self.op = op
+            super().__init__(op.oshape, op.ishape, repr_str="Flaky(%s)" % op.repr_str)
+
+        def _apply(self, input):
+            i = state["calls"]
+            state["calls"] += 1
+            if i == state["at"] and state["armed"]:
+                state["fired"] += 1
+                raise InjectedCallbackFault("operator failed (application %d)" % i)
+            return self.op(input)
+
+        def _adjoint_linop(self):
+            return Flaky(self.op.H)
+
+        def _normal_linop(self):
+            return Flaky(self.op.N)
+    return Flaky(inner)
 
 
 class LLSWorld(World):
@@ -264,12 +302,26 @@ class LLSWorld(World):
             k["unsupported"] = False
         plan["rng"] = {"seed": rng.randrange(2 ** 31), "burn": rng.randint(0, 5), "twin_seed": rng.randrange(2 ** 31)}
         plan["twin"] = rng.choice(["none", "none", "rng", "stream"])
+        # an earlier app built around the *same* operator objects (alternating schemes
+        # rebuild LinearLeastSquares around one A): anything remembered on the operator leaks
+        plan["prev"] = None
+        if rng.random() < 0.3:
+            same = k["solver"] if k["solver"] in ("GradientMethod", "PrimalDualHybridGradient", "ConjugateGradient") else "GradientMethod"
+            plan["prev"] = {"solver": rng.choice([same, same, "GradientMethod", "PrimalDualHybridGradient", "ConjugateGradient"]),
+                            "lamda": rng.choice([0, 0, 0.05, 3.0, 25.0]), "max_iter": rng.choice([1, 3, 10])}
+            if rng.random() < 0.4:
+                # a much stronger ridge than in the earlier solve
+                k["lamda"] = round(rng.uniform(2.0, 30.0), 2)
         plan["clock"] = {"start": 1.7e9, "incs": [round(rng.uniform(1e-4, 0.2), 4) for _ in range(3)], "jumps": {}}
         plan["faults"] = []
         if k["show_pbar"] and rng.random() < 0.4:
             plan["faults"].append({"seam": "stream", "at_write": rng.randint(0, 40), "kind": rng.choice(["eio", "closed", "short"])})
         if rng.random() < 0.15:
             plan["faults"].append({"seam": "clock", "at_read": rng.randint(0, 50), "delta": rng.choice([-3600.0, 86400.0])})
+        if not k["unsupported"] and rng.random() < 0.12:
+            # the forward operator fails once in the middle of the run; the caller catches the
+            # error and calls run() again
+            plan["faults"].append({"seam": "operator", "at_call": rng.randint(2, 40)})
         plan["schedule"] = ["RUN"]
         return plan
 
@@ -398,9 +450,27 @@ class LLSWorld(World):
         np.random.seed(rng_seed)
         for _ in range(plan["rng"]["burn"]):
             np.random.standard_normal(3)
+        ofaults = [f for f in plan["faults"] if f["seam"] == "operator"] if judge_ledger else []
+        fstate = {"calls": 0, "at": ofaults[0]["at_call"] if ofaults else -1, "armed": bool(ofaults), "fired": 0}
         with Seams(clock, stream):
             Aop, y, kw, x_caller, Gop = self._build(plan, ledger)
+            if ofaults:
+                Aop = make_flaky(sp, Aop, fstate)
             out["x_caller"] = x_caller
+            prev = plan.get("prev")
+            if prev:
+                # an earlier, unrelated solve that shares the operator objects
+                try:
+                    pkw = {}
+                    if prev["solver"] != "ConjugateGradient" and "proxg" in kw and not (prev["solver"] == "GradientMethod" and Gop is not None):
+                        pkw["proxg"] = kw["proxg"]
+                    if Gop is not None and prev["solver"] == "PrimalDualHybridGradient":
+                        pkw["G"] = Gop
+                    sp.app.LinearLeastSquares(Aop, y.copy(), lamda=prev["lamda"], solver=prev["solver"],
+                                              max_iter=prev["max_iter"], show_pbar=False, **pkw).run()
+                    stats["buggify.operator_shared_with_earlier_app"] += 1
+                except Exception as e:
+                    stats["probes.previous_app_raised"] += 1
             eff = solver
             if eff is None:
                 eff = "ConjugateGradient" if "proxg" not in kw else ("GradientMethod" if Gop is None else "PrimalDualHybridGradient")
@@ -423,6 +493,10 @@ class LLSWorld(World):
             try:
                 app = sp.app.LinearLeastSquares(Aop, y, **kw, **opts)
             except Exception as e:
+                if caused_by_injected_fault(e):
+                    stats["probes.operator_fault_in_constructor"] += 1
+                    out["injected"] = "InjectedCallbackFault"
+                    return out
                 if getattr(e, "injected", False):
                     out["injected"] = type(e).__name__
                     return out
@@ -447,16 +521,26 @@ class LLSWorld(World):
                         self._flag(res, "caller_array_modified", "LinearLeastSquares." + eff, cnt["n"],
                                    {"changed": badl, "update": cnt["n"], "A": plan["A"]["kind"]})
             alg.update = counting_update
+            xr = None
             try:
-                xr = app.run()
-            except Violation:
-                raise
-            except Exception as e:
-                if getattr(e, "injected", False):
-                    out["injected"] = type(e).__name__
-                else:
-                    out["raised"] = e
-                xr = None
+              for attempt in range(3):
+                try:
+                    xr = app.run()
+                    break
+                except Violation:
+                    raise
+                except Exception as e:
+                    if caused_by_injected_fault(e):
+                        # transient operator failure: the caller resumes the same app
+                        stats["faults_fired.operator_raise_once"] += 1
+                        out["resumed"] = True
+                        continue
+                    if getattr(e, "injected", False):
+                        out["injected"] = type(e).__name__
+                    else:
+                        out["raised"] = e
+                    xr = None
+                    break
             finally:
                 del alg.update
             out["updates"] = cnt["n"]
@@ -576,7 +660,7 @@ class LLSWorld(World):
                 gap2 = F(r2["x"]) - Fs
                 if gap2 > tol:
                     self._flag(res, "answer_depends_on_rng_history", site, 0, {"gap": gap2, "tol": tol})
-        elif plan["twin"] == "stream" and (sfaults or cspec["jumps"]):
+        elif plan["twin"] == "stream" and (sfaults or cspec["jumps"]) and not r1.get("resumed"):
             r2 = self._one_run(plan, res, plan["rng"]["seed"], [], plan["clock"], judge_ledger=False)
             stats["probes.twin_fault_free"] += 1
             if r2["x"] is not None and codec.bytes_digest(r2["x"]) != codec.bytes_digest(xr):
@@ -584,7 +668,7 @@ class LLSWorld(World):
         res.nontrivial = True
         res.fingerprint = codec.json_digest([
             k["solver"], eff, plan["A"]["kind"], gk, gkG, lam > 0, z is not None, k["xgiven"], k["P"], k["steps_given"],
-            k["accelerate"], k["rho"], k["complex"], k["show_pbar"], plan["twin"], n,
+            k["accelerate"], k["rho"], k["complex"], k["show_pbar"], plan["twin"], n, bool(plan.get("prev")),
             [(f["seam"], f.get("kind", "jump")) for f in plan["faults"]]])
 
     # ---------------------------------------------------------------- shrink
@@ -598,6 +682,10 @@ class LLSWorld(World):
         if plan["faults"]:
             p = copy.deepcopy(plan)
             p["faults"] = []
+            yield p
+        if plan.get("prev"):
+            p = copy.deepcopy(plan)
+            p["prev"] = None
             yield p
         if plan["twin"] != "none":
             p = copy.deepcopy(plan)
